@@ -6,6 +6,7 @@ instance *shape* at a time (alleles, weights, recombination costs and phred
 likelihoods symbolic); the results are compared in z3 (LIA) with the
 definition of the objective."""
 import itertools
+import os
 import json
 import time
 
@@ -86,7 +87,7 @@ class DPCheck(SubCheck):
         replays = 0
         cover = {}
         try:
-            run = dpcheck.symbolic_run(shape, time_budget=self.budget(tier))
+            run = dpcheck.symbolic_run(shape, time_budget=self.budget(tier) if not os.environ.get("VERIF_LLSYM_BUDGET") else int(os.environ["VERIF_LLSYM_BUDGET"]))
         except Unsupported as u:
             return JobResult(sub=self.name, shape=shape, stats=stats, violations=[], samples=[], cover={}, errors=["LLSym unsupported: %s" % u], replays=0, obligations=1, discharged=0, inconclusive=1, wall_s=time.time() - t0)
         it = run.it
